@@ -22,6 +22,9 @@ func verifAddr(i int) cmn.Address {
 	return a
 }
 
+// verifSameHash: harness option, see verifBlockID
+var verifSameHash bool
+
 func verifBlockID(k int) BlockID {
 	if k == 0 {
 		return BlockID{}
@@ -29,6 +32,10 @@ func verifBlockID(k int) BlockID {
 	var b BlockID
 	b.Hash[0] = byte(0xB0 + k)
 	b.Hash[31] = byte(k)
+	if verifSameHash && k == 2 {
+		// block id 2 = the hash of block 1 with another part-set header (a different block id)
+		b.Hash[0], b.Hash[31] = byte(0xB0+1), 1
+	}
 	b.PartsHeader.Total = uint32(k)
 	b.PartsHeader.Hash[0] = byte(0xC0 + k)
 	b.PartsHeader.Hash[31] = byte(k)
